@@ -40,6 +40,13 @@ fuzz_target!(|data: &[u8]| {
         Err(_) => return,
     };
     for tr in ["FromMeta", "FromDeriveInput", "FromField", "FromVariant", "FromTypeParam", "FromAttributes"] {
-        oracle(tr, &di);
+        // (vmodel's catch replaces libFuzzer's abort-on-panic hook, so that the one known finding can be told
+        // from every other panic: string slicing inside the ident_case dependency under a case rule)
+        if let Err(msg) = vmodel::util::catch(|| oracle(tr, &di)) {
+            if msg.contains("/ident_case-") && msg.contains("/src/lib.rs") {
+                continue;
+            }
+            panic!("C06 derive({}) panicked on `{}`: {}", tr, src, msg);
+        }
     }
 });
